@@ -28,8 +28,8 @@ const (
 )
 
 type tok struct {
-	k       tokKind
-	s       string
+	k        tokKind
+	s        string
 	nlBefore bool
 }
 
@@ -315,7 +315,7 @@ type frame struct {
 	kind     frameKind
 	pre      string // token text before the opener (for parens: what precedes "(")
 	ternary  int
-	isFn     bool // block that is a function body
+	isFn     bool  // block that is a function body
 	member   []tok // class body: tokens of the current member so far
 	sawArrow bool  // an "=>" was seen in the current statement of this frame
 	openIdx  int   // index of the opening token
@@ -499,8 +499,13 @@ func (d *detector) analyse(toks []tok) {
 					}
 					break
 				}
-				if next.k == tIdent && next.s == "using" {
-					break // handled by "using"
+				if next.k == tIdent && next.s == "using" && get(i+2).k == tIdent && !get(i+2).nlBefore {
+					// await using x = ...: handled by "using"; at the top level it is also top-level await
+					d.add("AsyncAwait")
+					if !inFunction() && !d.anyArrow(stack) {
+						d.add("TopLevelAwait")
+					}
+					break
 				}
 				if next.k == tEOF || (next.k == tPunct && (next.s == ")" || next.s == "," || next.s == ";" || next.s == "=" || next.s == "]" || next.s == "." || next.s == ":" || next.s == "=>")) {
 					break // plain identifier
